@@ -239,6 +239,7 @@ class Plan:
     lens: dict = field(default_factory=dict)        # member -> list length
     values: dict = field(default_factory=dict)      # member -> concrete value (enum member, corner string ...)
     subst: dict = field(default_factory=dict)       # member -> class to instantiate
+    trust: dict = field(default_factory=dict)       # member -> 'lib' | 'schema': whose notion of "optional" decides (default: both agree)
 
 
 class CannotGenerate(Exception):
@@ -314,7 +315,7 @@ class Gen:
             return  # rewritten with time.time() on every serialisation, excluded from the value
         is_list = bool(names & {'_ElementListProperty', '_AttributeListBase'})
         decl = self._decl(ctx, prop, names)
-        optional = self._optional(prop, names, decl)
+        optional = self._optional(prop, names, decl, top.trust.get(name) if top is not None else None)
         if is_list:
             n = self._list_len(name, mode, top, depth, decl, names)
             value = self._list_value(prop, names, n, ctx, decl, depth, mode, top.subst.get(name) if top else None, cls)
@@ -377,6 +378,16 @@ class Gen:
                 raise CannotGenerate(f'{cls.__name__}.{name}: setter refuses generated value {value!r}: {ex!r}') from ex
 
     # ---- schema look-up ------------------------------------------------------------------------------
+    def decl_is_exact(self, ctx, prop, names) -> bool:
+        """True when the declaration comes from the owner's own schema type (not from the name keyed fall-back)"""
+        if not isinstance(ctx, xo.Complex):
+            return False
+        if '_AttributeBase' in names:
+            an = prop._attribute_name  # noqa: SLF001
+            return ctx.attr(an.text if hasattr(an, 'text') else an) is not None
+        sub = getattr(prop, '_sub_element_name', None)
+        return sub is not None and ctx.elem(sub.text if hasattr(sub, 'text') else str(sub)) is not None
+
     def _decl(self, ctx, prop, names):
         """-> ('attr', Simple, required) | ('elem', ElemDecl) | ('text', Simple) | None"""
         if '_AttributeBase' in names:
@@ -413,11 +424,14 @@ class Gen:
             merged.type = cplx[0] if len(cplx) == 1 and len(decls) == 1 else None
         return ('elem', merged)
 
-    def _optional(self, prop, names, decl) -> bool:
-        """Whether the member may be absent: the library's declaration AND (if known) the schema's."""
+    def _optional(self, prop, names, decl, trust=None) -> bool:
+        """Whether the member may be absent: the library's declaration AND (if known) the schema's.
+        ``trust`` (directed plans only): 'lib' / 'schema' lets one side decide where the two disagree."""
         lib = bool(prop.is_optional)
-        if decl is None:
+        if decl is None or trust == 'lib':
             return lib
+        if trust == 'schema':
+            return (not decl[2]) if decl[0] == 'attr' else (decl[1].min == 0 if decl[0] == 'elem' else lib)
         if decl[0] == 'attr':
             return lib and not decl[2]
         if decl[0] == 'elem':
@@ -902,6 +916,8 @@ class MemberInfo:
     is_string: bool
     is_sub: bool
     decl: object
+    lib_optional: bool = False
+    schema_optional: bool | None = None     # None: owner type unknown
 
 
 def members(gen: Gen, cls, ctx) -> list[MemberInfo]:
@@ -915,7 +931,11 @@ def members(gen: Gen, cls, ctx) -> list[MemberInfo]:
         enum_cls = getattr(conv, '_klass', None) if type(conv).__name__ == 'EnumConverter' else None
         is_list = bool(names & {'_ElementListProperty', '_AttributeListBase'})
         is_string = (inspect.isclass(conv) and conv.__name__ == 'StringConverter') and not is_list
-        out.append(MemberInfo(name, prop, names, is_list, gen._optional(prop, names, decl) and not is_list,  # noqa: SLF001
-                              getattr(prop, '_default_py_value', None) is not None, enum_cls, is_string,
-                              bool(names & {'SubElementProperty', 'ContainerProperty', 'SubElementListProperty', 'ContainerListProperty'}), decl))
+        mi = MemberInfo(name, prop, names, is_list, gen._optional(prop, names, decl) and not is_list,  # noqa: SLF001
+                        getattr(prop, '_default_py_value', None) is not None, enum_cls, is_string,
+                        bool(names & {'SubElementProperty', 'ContainerProperty', 'SubElementListProperty', 'ContainerListProperty'}), decl)
+        mi.lib_optional = bool(prop.is_optional)
+        if decl is not None and decl[0] in ('attr', 'elem') and gen.decl_is_exact(ctx, prop, names):
+            mi.schema_optional = (not decl[2]) if decl[0] == 'attr' else decl[1].min == 0
+        out.append(mi)
     return out
